@@ -116,6 +116,18 @@ pub fn c16(fx: &mut Fx) {
             fx.push(json!({"e": "abspath", "uri": obs::bytes(&u)}));
         }
     }
+    // structured URIs: the scheme prefix repeated, and tails made of URI *pieces* (authority with userinfo /
+    // port / IPv6 literal, path segments with reserved characters, a URL inside the path or the query)
+    let pieces: Vec<&[u8]> = vec![b"http://", b"a", b"/", b"b@c", b"@", b"u:p@h", b":80", b"[::1]", b"//", b"?q=http://x/y", b"#f", b"/d", "\u{e9}".as_bytes()];
+    for tail in strings_upto(&pieces, if fx.thorough { 4 } else { 3 }) {
+        for pre in [&b"http://"[..], b"/", b""] {
+            let mut u = pre.to_vec();
+            u.extend(&tail);
+            if !u.is_empty() {
+                fx.push(json!({"e": "abspath", "uri": obs::bytes(&u)}));
+            }
+        }
+    }
 }
 
 // ---------------------------------------------------------------------------------------
